@@ -10,6 +10,10 @@ impl Instant {
     pub fn now() -> (r: Instant)
         ensures r.observed(), forall|i: Instant| #[trigger] i.observed() ==> i.t <= r.t
     { unimplemented!() }
+    // Instant::elapsed(): the time since this instant (a function of the instant and of "now", which is opaque)
+    pub uninterp spec fn elapsed_spec(self) -> Duration;
+    #[verifier::external_body]
+    pub fn elapsed(&self) -> (r: Duration) ensures r == self.elapsed_spec() { unimplemented!() }
 }
 
 // ---- the pooled value `M::Type` and the manager's error `M::Error` ----------------------------------------
